@@ -303,12 +303,28 @@ Qed.
 
 End Exact.
 
-(* the code's rank bookkeeping: periodic / neumann fields store dim - 1 *)
-Lemma gmrf_code_rank_zero n : gmrf_code_rank BZero n = n.
-Proof. reflexivity. Qed.
+(* the code's rank bookkeeping under either rule *)
+Lemma gmrf_code_rank_zero rule order pd n : gmrf_code_rank rule BZero order pd n = n.
+Proof. unfold gmrf_code_rank. simpl. lia. Qed.
 
-Lemma gmrf_code_rank_deficient bc n : bc <> BZero -> (0 < n)%nat -> gmrf_code_rank bc n <> n.
-Proof. destruct bc; simpl; intros; try congruence; lia. Qed.
+Lemma gmrf_code_rank_deficient rule bc order pd n :
+  (0 < gmrf_nullity rule bc order pd)%nat -> (0 < n)%nat -> gmrf_code_rank rule bc order pd n <> n.
+Proof. unfold gmrf_code_rank. lia. Qed.
+
+Lemma gmrf_nullity_legacy bc order pd : bc <> BZero -> gmrf_nullity RuleDimMinus1 bc order pd = 1%nat.
+Proof. destruct bc; simpl; congruence. Qed.
+
+(* the repaired rule: which fields are rank-deficient at all *)
+Lemma gmrf_nullity_new_pos bc order pd :
+  (0 < gmrf_nullity RuleNullity bc order pd)%nat <-> bc <> BZero /\ order <> 0%nat.
+Proof.
+  destruct bc; simpl.
+  - split; [lia | intros [H _]; congruence].
+  - destruct order as [|[|[|o]]]; simpl; split; intros; try lia; try (split; [discriminate | lia]); destruct H; congruence.
+  - destruct order as [|[|[|o]]]; simpl; split; intros; try lia; try (split; [discriminate | lia]);
+      try (destruct H; congruence).
+    pose proof (Nat.pow_nonzero 2 pd). lia.
+Qed.
 
 (* ---------------- a concrete member of the refuted class, and non-vacuity ---------------- *)
 
@@ -327,13 +343,13 @@ Theorem gmrf_refuted_witness :
   exists (bc : bc_type) (cholT P : Rmat) (Ax b : Rvec),
     chol_law (length b) cholT P /\ length Ax = length b /\
     forall (lnG : R -> R) (logdet alpha beta : R),
-    ~ proportional_on_pos (post_logd lnG (lik_gmrf (fun s => s) (gmrf_code_rank bc (length b)) logdet P Ax b) alpha beta)
+    ~ proportional_on_pos (post_logd lnG (lik_gmrf (fun s => s) (gmrf_code_rank RuleDimMinus1 bc 1 1 (length b)) logdet P Ax b) alpha beta)
         (sampler_logpdf lnG (length b) (gmrf_sqrtprec cholT 1) Ax b alpha beta).
 Proof.
   exists BNeumann, wit_cholT, wit_P, [0; 0], [1; 0].
   split; [exact wit_chol_law | split; [reflexivity|]].
   intros lnG logdet alpha beta H.
-  pose proof (proj1 (gmrf_exact_iff lnG (fun s => s) (gmrf_code_rank BNeumann 2) logdet wit_cholT wit_P [0; 0] [1; 0]
+  pose proof (proj1 (gmrf_exact_iff lnG (fun s => s) (gmrf_code_rank RuleDimMinus1 BNeumann 1 1 2) logdet wit_cholT wit_P [0; 0] [1; 0]
                        alpha beta (fun s _ => eq_refl) wit_chol_law eq_refl) H) as E.
   simpl in E. discriminate.
 Qed.
